@@ -2,7 +2,7 @@
    Contents of a live block = the log of its owner's writes ([contents s p i] = byte at offset i, None = indeterminate);
    the pool's memcpy is modelled as the transfer of that log (the harness compares real bytes against canaries). *)
 From Coq Require Import List NArith Bool.
-From FV Require Import Slab.SlabModel Slab.SlabBasics Slab.SlabFail Slab.SlabInv Slab.SlabC01 Slab.SlabC02 Slab.SlabChurn.
+From FV Require Import Slab.SlabModel Slab.SlabBasics Slab.SlabFail Slab.SlabInv Slab.SlabC01 Slab.SlabC02 Slab.SlabChurn Slab.SlabWrites.
 Import ListNotations.
 Local Open Scope N_scope.
 
@@ -86,10 +86,20 @@ Theorem C02_churn_returns_to_same_state :
 Proof. exact C02_churn_main. Qed.
 Print Assumptions C02_churn_returns_to_same_state.
 
-(* NOT PROVED as a separate theorem (kept visible): C02_owner_only_writes -- every CAccess range with mode write in the
-   callback list of a step is disjoint from every block live throughout the call.  It is a corollary of C01's
-   disjoint_from_bookkeeping (headers, link words) plus C02_realloc_spec (the memcpy destination is the block being
-   returned); the CAccess entries themselves are not observable on the real code except through ASan. *)
+(* The bytes of a live block are changed only by its owner: every write access the pool itself makes during a call
+   (frame headers, link words of free objects, the memcpy destination of a moving realloc: the [CAccess true] entries of
+   the call's event list) is disjoint from every block that is live after the call and was already live before it.
+   (The memcpy destination is the block being returned, which was not live before; a freed block's link word is written
+   after the block stopped being live.)  Holds with and without poison hooks. *)
+Theorem C02_owner_only_writes :
+  forall (c : cfg) (ops : list op) (o : op),
+    cfg_ok c = true -> policy_ok c (ops ++ [o]) -> api_ok c (ops ++ [o]) ->
+    let s := run c ops in
+    let s' := st_of (step c s o) in
+    forall a n, In (CAccess true a n) (cbs_of (step c s o)) ->
+    forall b', In b' (live s') -> In (bk_p b') (live_ptrs s) -> disjoint (bk_p b') (bk_size0 b') a n.
+Proof. exact C02_owner_only_writes_main. Qed.
+Print Assumptions C02_owner_only_writes.
 
 Definition c02_cfg : cfg := mkCfg 4096 4096 4096 4 true true 40 104.
 Definition c02_ops : list op :=
